@@ -578,6 +578,33 @@ func (env *CEnv) call(e *CExpr) SV {
 			}
 		}
 		return n.eval(e.Args[0])
+	case "cast":
+		// cast("Type", p): the unsafe.Pointer / pointer p viewed as *Type (node.go stores *Block / *Inline in an unsafe.Pointer)
+		if len(e.Args) != 2 || e.Args[0].Kind != "str" {
+			env.errf("cast(\"Type\", pointer)")
+		}
+		pv := env.eval(e.Args[1])
+		if pv.K != KRef || pv.T == nil {
+			env.errf("cast: not a heap pointer: %s", e.Args[1])
+		}
+		var found types.Type
+		for _, pk := range env.x.prog.pkgs {
+			if obj := pk.Types.Scope().Lookup(e.Args[0].Str); obj != nil {
+				if tn, ok := obj.(*types.TypeName); ok {
+					found = tn.Type()
+				}
+			}
+		}
+		if found == nil {
+			env.errf("cast: unknown type %s", e.Args[0].Str)
+		}
+		return refSV(pv.T, types.NewPointer(found))
+	case "atomconst":
+		// the numeric value of an x/net/html/atom constant, by name
+		if len(e.Args) != 1 || e.Args[0].Kind != "str" {
+			env.errf("atomconst(\"name\")")
+		}
+		return intSV(IntC(int64(atomByName(e.Args[0].Str))), types.Typ[types.Uint32])
 	case "seqvalof":
 		// the contents of a byte sequence or string as one abstract value (equal contents, equal values)
 		sv := env.eval(e.Args[0])
